@@ -426,23 +426,59 @@ def O(cls, *pairs, **attrs):
     return ["O", cls, ps]
 
 
-def build(desc, seed):
-    """Fresh Python objects for a descriptor; nothing is shared between two calls."""
+def build(desc, seed, memo=None):
+    """Fresh Python objects for a descriptor; nothing is shared between two calls. Inside one call, every
+    ["S", label, desc] with the same label is ONE object (aliasing) and ["B", label] is a reference back to the
+    labelled object that is still under construction (a true cycle)."""
+    if memo is None:
+        memo = {}
     tag = desc[0]
     if tag == "L":
         return leaf(desc[1]).make(seed)
+    if tag == "B":
+        return memo[desc[1]]
+    if tag == "S":
+        label, inner = desc[1], desc[2]
+        if label in memo:
+            return memo[label]
+        if inner[0] == "O":  # registered before its attributes are built, so that they can point back to it
+            o = memo[label] = CLASSES[inner[1]]()
+            for n, d in inner[2]:
+                setattr(o, n, build(d, seed, memo))
+            return o
+        if inner[0] == "C" and inner[1] == "list":
+            o = memo[label] = []
+            for d in inner[2]:
+                o.append(build(d, seed, memo))
+            return o
+        if inner[0] == "C" and inner[1] == "dict":
+            o = memo[label] = {}
+            for k, d in inner[2]:
+                o[k] = build(d, seed, memo)
+            return o
+        o = memo[label] = build(inner, seed, memo)
+        return o
     if tag == "C":
         kind, items = desc[1], desc[2]
         if kind == "dict":
-            return {k: build(d, seed) for k, d in items}
-        vals = [build(d, seed) for d in items]
+            return {k: build(d, seed, memo) for k, d in items}
+        vals = [build(d, seed, memo) for d in items]
         return {"list": list, "tuple": tuple, "set": set}[kind](vals)
     if tag == "O":
         o = CLASSES[desc[1]]()
         for n, d in desc[2]:
-            setattr(o, n, build(d, seed))
+            setattr(o, n, build(d, seed, memo))
         return o
     raise ValueError(f"bad descriptor {desc!r}")
+
+
+def SH(label, desc):
+    """Shared node: every occurrence with this label is the same object."""
+    return ["S", label, desc]
+
+
+def BACK(label):
+    return ["B", label]
 
 
 def show(desc):
@@ -450,6 +486,10 @@ def show(desc):
     tag = desc[0]
     if tag == "L":
         return desc[1]
+    if tag == "S":
+        return f"&{desc[1]}:{show(desc[2])}"
+    if tag == "B":
+        return f"*{desc[1]}"
     if tag == "C":
         kind, items = desc[1], desc[2]
         if kind == "dict":
@@ -467,6 +507,10 @@ def show(desc):
 
 
 def desc_hashable(desc):
+    if desc[0] == "S":
+        return desc_hashable(desc[2])
+    if desc[0] == "B":
+        return False
     if desc[0] == "L":
         return leaf(desc[1]).hashable
     if desc[0] == "C" and desc[1] == "tuple":
@@ -475,8 +519,10 @@ def desc_hashable(desc):
 
 
 def children(desc):
-    if desc[0] == "L":
+    if desc[0] in ("L", "B"):
         return []
+    if desc[0] == "S":
+        return [desc[2]]
     if desc[0] == "C" and desc[1] == "dict":
         return [d for _, d in desc[2]]
     if desc[0] == "C":
@@ -510,6 +556,10 @@ def leaf_occurrences(desc, ck=None, out=None):
 
 
 def node_kind(desc):
+    if desc[0] == "S":
+        return node_kind(desc[2])
+    if desc[0] == "B":
+        return "back_reference"
     if desc[0] == "L":
         return leaf(desc[1]).cls
     return desc[1] if desc[0] == "C" else "object"
@@ -539,7 +589,7 @@ def dispatch_classes(desc, out=None):
         out.add(leaf(desc[1]).cls)
     elif desc[0] == "C":
         out.add(desc[1])
-    else:
+    elif desc[0] == "O":
         out.add("object")
     for c in children(desc):
         dispatch_classes(c, out)
@@ -1142,6 +1192,7 @@ class _Out(list):
     def __init__(self, limit):
         super().__init__()
         self.limit = limit
+        self.seen = set()  # (id(expected), id(observed)) of composite nodes already under comparison: cycles and shared sub-graphs
 
     def add(self, path, pos, what, exp, got, kind, **extra):
         if len(self) < self.limit:
@@ -1187,6 +1238,11 @@ def _tensor_np(t):
 def _cmp(e, g, path, pos, slack, out):
     if out.full:
         return
+    if isinstance(e, (AutoSerialize, list, dict, set)) and not isinstance(e, torch.nn.Module):
+        key = (id(e), id(g))
+        if key in out.seen:
+            return  # this very pair is already being compared further up (or was compared): coinductively equal
+        out.seen.add(key)
     kind = classify(e)
     # ---- AutoSerialize objects: same class, identical attribute-name set, equal values
     if isinstance(e, AutoSerialize):
@@ -1402,14 +1458,79 @@ def cls_of(rec, **more):
     return c
 
 
+def walk_paths(obj, limit=2000):
+    """[(steps, value)] for every node reachable through attributes / indices / keys, each object visited once per path
+    but never descending twice into the same object (cycles)."""
+    out, stack = [], [((), obj)]
+    inside = set()
+    while stack and len(out) < limit:
+        steps, v = stack.pop()
+        out.append((steps, v))
+        if isinstance(v, torch.nn.Module):
+            continue
+        if isinstance(v, (AutoSerialize, list, tuple, dict)):
+            if id(v) in inside:
+                continue
+            inside.add(id(v))
+            if isinstance(v, AutoSerialize):
+                it = [(("a", k), x) for k, x in sorted(vars(v).items())]
+            elif isinstance(v, dict):
+                it = [(("k", k), x) for k, x in v.items()]
+            else:
+                it = [(("i", i), x) for i, x in enumerate(v)]
+            for st, x in it:
+                stack.append((steps + (st,), x))
+    return out
+
+
+def _resolve_steps(obj, steps):
+    cur = obj
+    for kind, k in steps:
+        cur = vars(cur)[k] if kind == "a" else cur[k]
+    return cur
+
+
+def alias_account(expected, loaded):
+    """(groups, preserved): groups of >= 2 paths that are ONE object in the expected graph, and how many of those
+    groups are still one object in the loaded graph. Identity is not claimed by the property: this is a count."""
+    by_id = {}
+    for steps, v in walk_paths(expected):
+        if steps and isinstance(v, (AutoSerialize, list, dict, set, tuple, np.ndarray, torch.Tensor, PurePath)) and not (isinstance(v, tuple) and not v):
+            by_id.setdefault(id(v), []).append(steps)
+    groups = [p for p in by_id.values() if len(p) >= 2]
+    preserved = 0
+    for paths in groups:
+        try:
+            objs = [_resolve_steps(loaded, st) for st in paths]
+        except Exception:
+            continue
+        preserved += int(all(o is objs[0] for o in objs))
+    return len(groups), preserved
+
+
 def _h(b):
     import hashlib
 
     return hashlib.blake2b(b, digest_size=6).hexdigest()
 
 
+_SUMMARY_STACK = []
+
+
 def summary(v):
     """JSON-able canonical description of a graph (types, shapes, digests of contents)."""
+    if isinstance(v, (AutoSerialize, list, dict)):
+        if any(v is x for x in _SUMMARY_STACK):
+            return "<cycle>"
+        _SUMMARY_STACK.append(v)
+        try:
+            return _summary(v)
+        finally:
+            _SUMMARY_STACK.pop()
+    return _summary(v)
+
+
+def _summary(v):
     if isinstance(v, AutoSerialize):
         return {"O": type(v).__name__, "attrs": {k: summary(x) for k, x in sorted(vars(v).items())}}
     if isinstance(v, torch.Tensor):
